@@ -22,24 +22,34 @@ from ..lib.impl import Raised, call
 LEVEL = "other"
 CLAIM = dict(
     category="other",
-    text="Proved (Lean, DarsiaProps.C10). (1) Shared workflow BaseCorrection.__call__ for ANY pure correct_array f, optional "
-    "correct_array_series and declared metadata update g (`_partial` theorems): copy mode leaves the input object untouched and "
-    "returns a new object of the same kind with data f(raw) and metadata = input's overridden by g; overwrite returns the very same "
-    "object with the same result; series are corrected slice by slice (whole-series routine takes precedence); arrays give f(array); "
-    "f = id leaves pixel data unchanged. (2) Concrete corrections whose array function is DarSIA's own index logic are modelled "
+    text="Proved (Lean, DarsiaProps.C10). (1) Shared workflow BaseCorrection.__call__, OPERATIONAL model on a heap "
+    "(DarsiaModel.CorrHeap: array buffers with identity, image.img.copy(), the per-slice loop handing correct_array VIEWS, np.stack, "
+    "and an effectful correct_array that may write through its argument and may return it): the loop equals its pointwise "
+    "description (sliceLoop_spec); copy mode leaves the input buffer untouched for EVERY correct_array because the views are taken "
+    "from the working copy (heap_copy_series_input_untouched, heap_copy_single_input_untouched, heap_array_copy_untouched); with views "
+    "of image.img - the tree before this round's fix - it is untouched IF AND ONLY IF correct_array does not change what it is "
+    "handed (heap_copy_series_original_iff, witness heap_original_views_leak); series data = stack of correct_array on the slices "
+    "in order (heap_series_per_slice); object identity and metadata (heap_object_identity); in-place visibility with overwrite on "
+    "arrays (heap_array_overwrite_in_place). The older specification-level model Corr.callImage and its `_partial` / `_def` theorems "
+    "are definitional unfoldings (labelled so); series_routine_precedence is tied by the toy correction only (no DarSIA class "
+    "defines correct_array_series). "
+    "(2) Concrete corrections whose array function is DarSIA's own index logic are modelled "
     "themselves (DarsiaModel.Corrections) and for them purity (the result depends only on dtype, shape and the values inside the "
     "box), neutrality and the series/copy/overwrite behaviour are theorems without that assumption: TypeCorrection between "
-    "uint8/uint16/float64 incl. skimage's data-dependent branch (type_pure, type_neutral, type_roundtrip_u8), whole-pixel and "
-    "inactive TranslationCorrection (trans_pure, trans_neutral, trans_is_shift, trans_inactive_identity), inactive DriftCorrection, "
+    "uint8/uint16/float64 incl. skimage's data-dependent branch and the ValueError path (type_pure, type_neutral, type_roundtrip_u8, "
+    "type_guard, type_never_raises_from_int), whole-pixel and inactive TranslationCorrection (trans_pure, trans_neutral; "
+    "trans_is_shift_def, trans_inactive_def, drift_inactive_def are definitional), "
     "RotationCorrection's own warp clip(astype(int)(anchor + R_inv (v - anchor))) in 2-D and 3-D (rot2_pure, rot3_pure, rot2_neutral, "
     "rot3_neutral; its quarter turns = np.rot90 are DarsiaProps.C09.rotcorr_quarter_turn_2d/3d), "
     "TransformationCorrection (transf_pure, transf_neutral) and the transparency of its per-object cache over any call history "
     "(transf_cache_transparent); concrete_workflow / concrete_neutral_series instantiate the workflow with these functions. Each "
     "model is tied EXACTLY to the code on integer / dyadic payloads (RotationCorrection with exactly representable matrices set on "
-    "the object). Only observed (not proved): purity / neutrality of the remaining corrections (curvature: scipy map_coordinates, "
+    "the object; TransformationCorrection histories incl. arrays larger / smaller than the source system: IndexError path). The heap "
+    "model is tied exactly through toy corrections (in place and/or returning their argument) on Image / ScalarImage / OpticalImage, "
+    "single and series, copy and overwrite, with name, dimensions, origin, class and series flag of the result compared. Only observed (not proved): purity / neutrality of the remaining corrections (curvature: scipy map_coordinates, "
     "colour, illumination, fitted affine / generalised perspective, float32 and general cv2.warpAffine translations), searched by "
-    "the oracle over configurations x input kinds x overwrite x shapes x dtypes (incl. a cropping CurvatureCorrection, the only "
-    "configuration that declares a metadata update, with the INPUT's metadata compared against a deep snapshot, and transformations "
+    "the oracle over configurations x input kinds x overwrite x shapes x dtypes (incl. the two configurations that declare a metadata "
+    "update - a cropping CurvatureCorrection and GeneralizedPerspectiveCorrection - with the INPUT's metadata compared against a deep snapshot, and transformations "
     "expressed in physical coordinates - direct, and fitted with isometry - on non-dyadic voxel sizes).",
     note="cv2.warpAffine is exact for whole-pixel translations and skimage img_as_* follow the modelled rules: contracts tied by "
     "correspondence, not proved. RotationCorrection built from an ANGLE of pi/2 carries float noise (cos = 6e-17) on rounding "
@@ -127,6 +137,156 @@ def corr_workflow(ctx, d):
         impl.append(repr(r) if isinstance(r, Raised) else r)
     return ctx.correspond("BaseCorrection.__call__ workflow (toy correction on real images, exact)", lines, impl)
 
+
+
+# the buffer the per-slice loop of BaseCorrection.__call__ takes its views from: "work" = img (the copy in copy mode),
+# "original" = image.img even in copy mode (the tree before the round-3 fix). The model mirrors the code as it is.
+SLICE_SRC = "work"
+KIND_CODE = {"Image": 0, "ScalarImage": 1, "OpticalImage": 2}
+
+
+def heap_toy_case(rng, i):
+    ow, series = bool(i % 2), bool((i // 2) % 2)
+    kind = ("Image", "ScalarImage", "OpticalImage")[(i // 4) % 3]
+    inplace, retarg = bool((i // 3) % 2), bool((i // 5) % 2)
+    a, b = rng.randint(-3, 3), rng.randint(-5, 5)
+    shape = (rng.randint(1, 3), rng.randint(1, 3))
+    T = rng.randint(1, 4) if series else 1
+    ch = (3,) if kind == "OpticalImage" else ()
+    meta0 = dict(name=rng.randint(1, 9), dims=[rng.randint(1, 9), rng.randint(1, 9)], origin=[rng.randint(-4, 4), rng.randint(-4, 4)])
+    upd = {}
+    if rng.random() < 0.5:
+        upd["name"] = str(rng.randint(10, 19))
+    if rng.random() < 0.5:
+        upd["dimensions"] = [float(rng.randint(10, 19)), float(rng.randint(10, 19))]
+    if rng.random() < 0.4:
+        upd["origin"] = [float(rng.randint(20, 29)), float(rng.randint(20, 29))]
+    raw = np.array([rng.randint(-9, 9) for _ in range(int(np.prod(shape + (T,) + ch)))], dtype=np.int64).reshape(shape + (T,) + ch)
+    return dict(ow=ow, series=series, kind=kind, inplace=inplace, retarg=retarg, a=a, b=b, T=T, meta0=meta0, upd=upd, raw=raw.tolist(),
+                shape=list(shape))
+
+
+def heap_toy_line(c, src=None):
+    raw = np.array(c["raw"], dtype=np.int64)
+    optical = c["kind"] == "OpticalImage"
+    slices = [(raw[..., t, :] if optical else raw[..., t]) for t in range(c["T"])]
+    m0 = c["meta0"]
+    m = [(0, m0["name"]), (1, m0["dims"][0]), (2, m0["dims"][1]), (3, m0["origin"][0]), (4, m0["origin"][1]),
+         (5, KIND_CODE[c["kind"]]), (6, int(c["series"]))]
+    u = c["upd"]
+    ul = ([(0, int(u["name"]))] if "name" in u else []) + (
+        [(1, int(u["dimensions"][0])), (2, int(u["dimensions"][1]))] if "dimensions" in u else []) + (
+        [(3, int(u["origin"][0])), (4, int(u["origin"][1]))] if "origin" in u else [])
+    return (f"hcall {src or SLICE_SRC} {int(c['ow'])} {int(c['series'])} {c['a']} {c['b']} {int(c['inplace'])} {int(c['retarg'])} {len(m)} "
+            + " ".join(f"{k} {v}" for k, v in m) + f" {len(ul)} " + " ".join(f"{k} {v}" for k, v in ul) + f" {c['T']} "
+            + " ".join(f"{sl.size} " + " ".join(str(int(x)) for x in sl.ravel()) for sl in slices))
+
+
+def heap_toy_run(d, c):
+    """run the toy (possibly in-place / argument-returning) correction through the real BaseCorrection.__call__"""
+    a, b, inplace, retarg, upd = c["a"], c["b"], c["inplace"], c["retarg"], c["upd"]
+
+    class Toy(d.BaseCorrection):
+        def correct_array(self, img):
+            out = a * img + b
+            if inplace:
+                img += 100
+            return img if retarg else out
+
+        def correct_metadata(self, metadata={}):
+            return dict(upd)
+
+        def save(self, path):
+            raise NotImplementedError
+
+        def load(self, path):
+            raise NotImplementedError
+
+    raw = np.array(c["raw"], dtype=np.int64)
+    optical, series, T = c["kind"] == "OpticalImage", c["series"], c["T"]
+    m0 = c["meta0"]
+    kw = dict(dimensions=[float(x) for x in m0["dims"]], origin=[float(x) for x in m0["origin"]], name=str(m0["name"]))
+    if series:
+        kw.update(series=True, time=[float(t) for t in range(T)])
+        data = raw.copy()
+    else:
+        data = (raw[..., 0, :] if optical else raw[..., 0]).copy()
+    if c["kind"] == "Image":
+        img = d.Image(data, scalar=True, **kw)
+    elif c["kind"] == "ScalarImage":
+        img = d.ScalarImage(data, **kw)
+    else:
+        img = d.OpticalImage(data, **kw)
+    orig = img.img
+    res = Toy()(img, overwrite=c["ow"])
+
+    def show(arr):
+        if series:
+            return " ".join("[" + " ".join(str(int(x)) for x in (arr[..., t, :] if optical else arr[..., t]).ravel()) + "]"
+                            for t in range(arr.shape[2]))
+        return "[" + " ".join(str(int(x)) for x in arr.ravel()) + "]"
+
+    meta = (f"0={int(res.name)} 1={int(res.dimensions[0])} 2={int(res.dimensions[1])} 3={int(res.origin[0])} 4={int(res.origin[1])} "
+            f"5={KIND_CODE.get(type(res).__name__, 9)} 6={int(bool(res.series))}")
+    return f"{int(res is img)} | {show(orig)} | {show(res.img)} | {int(np.shares_memory(res.img, orig))} | {meta}", orig
+
+
+def corr_heap_workflow(ctx, d):
+    """operational heap model vs the real workflow: toy corrections that may write through their argument and/or return it"""
+    lines, impl = [], []
+    for i in range(ctx.pick(60, 480)):
+        c = heap_toy_case(ctx.rng, i)
+        lines.append(heap_toy_line(c))
+        r = call(heap_toy_run, d, c)
+        impl.append(repr(r) if isinstance(r, Raised) else r[0])
+    ctx.correspond("BaseCorrection.__call__ on a heap (in-place / argument-returning toy corrections, all image kinds, exact)", lines, impl)
+    # raw arrays
+    lines, impl = [], []
+    for i in range(ctx.pick(16, 96)):
+        ow, inplace, retarg = bool(i % 2), bool((i // 2) % 2), bool((i // 4) % 2)
+        a, b = ctx.rng.randint(-3, 3), ctx.rng.randint(-5, 5)
+        x = [ctx.rng.randint(-9, 9) for _ in range(ctx.rng.randint(1, 6))]
+        lines.append(f"harr {int(ow)} {a} {b} {int(inplace)} {int(retarg)} {len(x)} " + " ".join(str(v) for v in x))
+
+        def run():
+            class Toy(d.BaseCorrection):
+                def correct_array(self, img):
+                    out = a * img + b
+                    if inplace:
+                        img += 100
+                    return img if retarg else out
+
+                def save(self, path):
+                    raise NotImplementedError
+
+                def load(self, path):
+                    raise NotImplementedError
+
+            arr = np.array(x, dtype=np.int64)
+            res = Toy()(arr, overwrite=ow)
+            return (f"{int(res is arr)} | [" + " ".join(str(int(v)) for v in arr) + "] | [" + " ".join(str(int(v)) for v in res) + "]")
+
+        r = call(run)
+        impl.append(repr(r) if isinstance(r, Raised) else r)
+    return ctx.correspond("BaseCorrection.__call__ on raw arrays (copy vs in place, exact)", lines, impl)
+
+
+def check_heap_case(d, c):
+    """property clause on the implementation: without overwrite the input image is untouched - also for a correct_array that
+    works in place on what it is handed (BaseCorrection documents copy mode as 'the correction is applied to a copy')"""
+    if c["ow"]:
+        return []
+    r = call(heap_toy_run, d, c)
+    if isinstance(r, Raised):
+        return [("C10:BaseCorrection.__call__(toy):raises", f"{r}")]
+    raw = np.array(c["raw"], dtype=np.int64)
+    optical = c["kind"] == "OpticalImage"
+    want = raw if c["series"] else (raw[..., 0, :] if optical else raw[..., 0])
+    if not np.array_equal(r[1], want):
+        return [(f"C10:BaseCorrection(series={int(c['series'])},overwrite=0,in-place correct_array):input-modified",
+                 f"{c['kind']} {'series' if c['series'] else 'image'}: overwrite=False, but the pixel data of the INPUT changed (a correct_array that "
+                 f"writes into its argument was handed a view of image.img instead of the copy)")]
+    return []
 
 
 # ---------------------------------------------------------------------------- round 2: concrete corrections vs model (exact)
@@ -302,8 +462,17 @@ def corr_concrete(ctx, d):
         hs, hd = Fr(1, rng.choice([1, 2])), Fr(1, rng.choice([1, 2]))
         t = [Fr(rng.randint(-6, 6), 2), Fr(rng.randint(-6, 6), 2)]
         dt = ["u8", "u16", "f64"][i % 3]
-        hist = [rand_payload(rng, dt, sshape) for _ in range(rng.randint(0, 3))]
-        a = rand_payload(rng, dt, sshape)
+        def hshape():
+            # mostly the source system's shape; sometimes larger (read inside the system's box) or smaller (IndexError)
+            r = rng.random()
+            if r < 0.6:
+                return sshape
+            if r < 0.85:
+                return (sshape[0] + rng.randint(0, 2), sshape[1] + rng.randint(0, 2))
+            return (max(1, sshape[0] - rng.randint(0, 1)), max(1, sshape[1] - rng.randint(0, 1)))
+
+        hist = [rand_payload(rng, dt, hshape()) for _ in range(rng.randint(0, 3))]
+        a = rand_payload(rng, dt, hshape())
 
         def run():
             src = d.Image(np.zeros(sshape), dimensions=[float(n * hs) for n in sshape])
@@ -314,11 +483,17 @@ def corr_concrete(ctx, d):
             T.set_dtype(pts, pts)
             T.set_parameters(np.array([float(x) for x in t]), 1.0, None)
             c = d.TransformationCorrection(src.coordinatesystem, dst.coordinatesystem, T)
-            for hh in hist:
-                c.correct_array(hh.copy())
             csl = lambda im: (" ".join(str(n) for n in im.img.shape) + " " + " ".join(fmt(o) for o in im.origin) + " "  # noqa: E731
                               + " ".join(fmt(v) for v in im.voxel_size))
-            return (csl(src), csl(dst)), c.correct_array(a.copy())
+            for hh in hist:
+                try:
+                    c.correct_array(hh.copy())
+                except IndexError:
+                    return (csl(src), csl(dst)), "!IndexError"
+            try:
+                return (csl(src), csl(dst)), c.correct_array(a.copy())
+            except IndexError:
+                return (csl(src), csl(dst)), "!IndexError"
 
         r = call(run)
         if isinstance(r, Raised):
@@ -326,7 +501,7 @@ def corr_concrete(ctx, d):
         (cs_s, cs_d), out = r
         lines.append(f"transfrun {rnd} {mode} {cs_s} {cs_d} {fmt(t[0])} {fmt(t[1])} 1 0 {len(hist)} "
                      + " ".join(f"{dt} {arr_tokens(hh)}" for hh in hist) + f" {dt} {arr_tokens(a)}")
-        impl.append(show_arr(out))
+        impl.append(out if isinstance(out, str) else show_arr(out))
     compare_lines(ctx, "TransformationCorrection with call history on one object (cache), exact", lines, impl)
 
 
@@ -685,7 +860,7 @@ def oracle(ctx, d):
                 continue
             for ow in (False, True):
                 for rep in range(reps):
-                    dtype = cfg["dtypes"][(rep + (1 if ow else 0) + KINDS.index(kind)) % len(cfg["dtypes"])] if rep else cfg["dtypes"][0]
+                    dtype = cfg["dtypes"][(rep + (1 if ow else 0) + KINDS.index(kind) + ctx.seed) % len(cfg["dtypes"])]
                     case = dict(config=cfg["name"], kind=kind, overwrite=ow, dtype=dtype, seed=ctx.rng.randrange(10**9))
                     ctx.count((cfg["name"], kind, ow, dtype, rep))
                     bad = check_case(d, case, cfgs)
@@ -694,6 +869,11 @@ def oracle(ctx, d):
                             skipped[sig] = what
                             continue
                         ctx.fail(sig, what, {"case": case, "observed": what})
+    for i in range(ctx.pick(48, 240)):
+        c = heap_toy_case(ctx.rng, i)
+        ctx.count(("heap-toy", i))
+        for sig, what in check_heap_case(d, c):
+            ctx.fail(sig, what, {"case": dict(c, heap_toy=True), "observed": what})
     ctx.cov["configs"] = [c["name"] for c in cfgl]
     ctx.cov["harness_skips"] = skipped
 
@@ -705,8 +885,8 @@ def replay(data):
     if case is None:
         print(json.dumps(data, indent=1)[:4000])
         return 0
-    bad = check_case(d, case)
-    print("case:", json.dumps(case))
+    bad = check_heap_case(d, case) if case.get("heap_toy") else check_case(d, case)
+    print("case:", json.dumps(case)[:600])
     for sig, what in bad:
         print("FAILS:", sig, "--", what)
     if not bad:
@@ -722,10 +902,11 @@ def run(ctx):
     for f in sorted((pathlib.Path(__file__).resolve().parents[2] / "corpus" / "C10").glob("*.json")):
         case = json.loads(f.read_text()).get("replay", {}).get("case")
         if case:
-            for sig, what in check_case(d, case):
+            for sig, what in (check_heap_case(d, case) if case.get("heap_toy") else check_case(d, case)):
                 ctx.fail(sig, what, {"case": case, "observed": what})
     ctx.prove("C10")
     corr_workflow(ctx, d)
+    corr_heap_workflow(ctx, d)
     corr_concrete(ctx, d)
     oracle(ctx, d)
     ctx.cov["explanation"] = CLAIM["text"]
